@@ -48,8 +48,13 @@ var faultBodies = []apix.Op{
 	op("mkb", P("p"), "q", ""), op("delb", nil, "p", ""),
 }
 
-func init() {
-	mkC08 := func(name string, readers int, imm int) func(tier string) []*hx.Scope {
+// mkC08 builds the fault-exploration scopes (shared by the properties that judge failed commits by their own oracle).
+func mkC08(name string, readers int, imm int) func(tier string) []*hx.Scope {
+	return mkC08w(name, readers, imm, nil)
+}
+
+func mkC08w(name string, readers int, imm int, wrap func(base func(x *apix.Exec, t *hx.Track, left int) []apix.Op) func(x *apix.Exec, t *hx.Track, left int) []apix.Op) func(tier string) []*hx.Scope {
+	{
 		return func(tier string) []*hx.Scope {
 			n, maxTx := 6, 3
 			seeds := []string{"twolevel", "freeruns"}
@@ -64,7 +69,11 @@ func init() {
 				cs[i].InitialMmapSize = imm
 			}
 			ro := []apix.Cfg{{Freelist: "array", InitialMmapSize: imm}}
-			scs := mk(name, seeds, cs, n, 1, faultAlphabet(lifeAlphabet(readers, faultBodies, ro, maxTx), ro), boundaryC07)
+			en := faultAlphabet(lifeAlphabet(readers, faultBodies, ro, maxTx), ro)
+			if wrap != nil {
+				en = wrap(en)
+			}
+			scs := mk(name, seeds, cs, n, 1, en, boundaryC07)
 			for _, s := range scs {
 				s.Session = true
 				s.Setup = func(x *apix.Exec) { x.EnableMonitor(true) }
@@ -72,6 +81,9 @@ func init() {
 			return scs
 		}
 	}
+}
+
+func init() {
 	// with a reader held across the failure; the map is large enough that no commit has to remap (a remapping
 	// writer and a reader on one goroutine is the documented deadlock, not a defect)
 	hx.Registry["c08-life"] = mkC08("c08-life", 1, 1<<20)
